@@ -2,7 +2,8 @@
    for every rayon call site of the CURRENT source tree: re-proved by
    vm_compute on Gen/ParSites.v, which tools/gen_parsites.py regenerates on
    every ./check run.  A `.reduce / .sum / .fold / .for_each / par_bridge`, an
-   unindexed source, a collect into a HashMap, a Mutex / atomic in a closure,
+   unindexed source, a collect into a HashMap (anything but a Vec or a
+   Result<Vec<_>, E>), a Mutex / atomic in a closure,
    any `unsafe` or interior mutability in the crate, a new parallel function or
    a raised node-count threshold makes this file fail to compile. *)
 From Coq Require Import String List Bool ZArith Arith.
@@ -54,8 +55,21 @@ Qed.
 
 (* every extracted site is inside the modelled fragment *)
 Theorem par_sites_modelled :
-  forall s, In s par_sites -> exists k, site_shape s = ShapeIndexedMapCollect k.
+  forall s, In s par_sites ->
+    exists k, site_shape s = ShapeIndexedMapCollect k \/ site_shape s = ShapeIndexedMapCollectResult k.
 Proof.
   assert (H : forallb site_ok par_sites = true) by (vm_compute; reflexivity).
-  rewrite forallb_forall in H. intros s Hs. unfold site_shape. rewrite (H s Hs). now eexists.
+  rewrite forallb_forall in H. intros s Hs. unfold site_shape. rewrite (H s Hs).
+  exists (length (ps_adaptors s)). destruct (ps_sink s); auto.
 Qed.
+
+(* which region each function uses — this is what Model/ParFns.v transcribes: the two centrality loops
+   collect into a Vec ([loop_arm]: gather_par), all_pairs and multi_source collect `Result` items into
+   `Result<Vec<_>, Error>` ([post_arm]: gather_result; since the repair of F22).  Fails to compile if the
+   source and the transcription part ways (e.g. the `.unwrap()` inside the closures comes back). *)
+Definition expected_site_shapes : list (string * par_shape) :=
+  [("betweenness_centrality", ShapeIndexedMapCollect 1); ("closeness_centrality", ShapeIndexedMapCollect 1);
+   ("all_pairs", ShapeIndexedMapCollectResult 1); ("multi_source", ShapeIndexedMapCollectResult 1)].
+
+Theorem par_site_shapes : map (fun s => (ps_fn s, site_shape s)) par_sites = expected_site_shapes.
+Proof. vm_compute. reflexivity. Qed.
